@@ -24,6 +24,11 @@ func VerifC02HandoverAnnotation() { verifC02Handover(vStrategyAnnotation) }
 func verifC02Handover(strategyKind int) {
 	s := vNewAdoptionScenario(strategyKind)
 	verifrt.Assume(s.revKind != 2) // unparsable annotation: no recorded revision to compare with
+	// the object's manifest in the ObjectSet may itself carry Package Operator's revision annotation (a manifest
+	// exported from another cluster): what gets recorded is the writer's revision all the same
+	if verifrt.Bool("template.carriesRevisionAnnotation") {
+		s.desired.SetAnnotations(map[string]string{corev1alpha1.ObjectSetRevisionAnnotation: "1", "example.com/note": "user"})
+	}
 	byMe := s.specControlledByMe()
 	// invariant established by every adopting/creating apply (checked in C01 "permitted-adopts"): the controller's
 	// revision is the recorded revision
